@@ -328,3 +328,22 @@ fn c05_datatype_accepts() {
     assert!(d.position() == hlen);
     kani::cover!(ty == Type::Int);
 }
+
+// the tokenizer drains the decoder on ANY error, so that iteration ends: one error, then None (C11 "at most one token per
+// input byte and then ends", C02 termination).  Reserved / ill-formed initial bytes, concrete.
+// @harness name=c11_tokenizer_drains props=C11,C02 kind=bounded features=half tier=thorough bound="input `1c x` (reserved additional information); more inputs exceed CBMC's memory"
+#[cfg(feature = "half")]
+#[kani::proof]
+#[kani::unwind(8)]
+#[kani::stub(core::str::from_utf8, crate::kani_refspec_stubs::from_utf8_any)]
+fn c11_tokenizer_drains() {
+    let x: u8 = kani::any();
+    macro_rules! one { ($b:expr) => {
+        let buf = [$b, x];
+        let mut tk = crate::decode::Tokenizer::new(&buf);
+        assert!(matches!(tk.next(), Some(Err(_))), "an ill-formed head is reported as an error");
+        assert!(tk.next().is_none(), "after an error the token stream ends");
+    } }
+    one!(0x1cu8);
+    kani::cover!(true);
+}
